@@ -78,6 +78,17 @@ Theorem C09_second_method_scores_sum_to_zero : forall n sr,
 Proof. exact second_method_scores_sum_to_zero. Qed.
 Print Assumptions C09_second_method_scores_sum_to_zero.
 
+(* the bound of every constraint: the supplied b where given (0 included), otherwise the criterion's own extreme *)
+Theorem C09_default_bounds : forall objs tm user k,
+  length objs = length tm -> length tm = length user -> (k < length objs)%nat ->
+  nth k (default_b objs tm user) 0 =
+  match nth k user None with
+  | Some v => v
+  | None => if nth k objs true then lmax (nth k tm []) else lmin (nth k tm [])
+  end.
+Proof. exact default_b_spec. Qed.
+Print Assumptions C09_default_bounds.
+
 Example C09_example :
   let objs := [true; true; false] in
   let tm := [[2; 1]; [1; 3]; [4; 2]] in      (* 3 criteria x 2 alternatives *)
